@@ -105,8 +105,28 @@ def exit_cases():
         yield prog, [['fire', 1, {'name': 'x0', 'prio': 0, 'flags': flags, 'ch': None}]] + [['tick', 1]] * 8
 
 
+def stopcall_cases():
+    """an event of a tracked closure is fired by call() / awaited by wait() and a handler of it stops it (before or after
+    other handlers ran) or it is cancelled before its dispatch: the caller is resumed and the closure completes"""
+    for how, pstop, flags in [(h, p, f) for h in ('call', 'wait') for p in (2, 0, -1) for f in (4, 5)]:
+        if how == 'call':
+            caller = [['call', {'name': 'x1', 'prio': 0, 'flags': 0, 'ch': None}, None], ['ret', 4]]
+        else:
+            caller = [['fire', {'name': 'x1', 'prio': 0, 'flags': 0, 'ch': None}],
+                      ['wait', {'name': 'x1', 'prio': 0, 'flags': 0, 'ch': None, 'byname': False}, None], ['ret', 4]]
+        prog = {'comps': {'1': {'chan': 'a'}},
+                'handlers': {
+                    '1': {'comp': 1, 'names': ['x0'], 'chan': None, 'prio': 0, 'script': {'x0': caller}},
+                    '2': {'comp': 1, 'names': ['x1'], 'chan': None, 'prio': pstop, 'script': {'x1': [['stop'], ['ret', 2]]}},
+                    '3': {'comp': 1, 'names': ['x1'], 'chan': None, 'prio': 1, 'script': {'x1': [['ret', 3]]}},
+                    '4': {'comp': 1, 'names': ['x1'], 'chan': None, 'prio': -2, 'script': {'x1': [['ret', 5]]}}},
+                'dyn': []}
+        yield prog, [['fire', 1, {'name': 'x0', 'prio': 0, 'flags': flags, 'ch': None}]] + [['tick', 1]] * 8
+
+
 def gen_random(rnd, quick):
     yield from exit_cases()
+    yield from stopcall_cases()
     for i in range(400 if quick else 8000):
         prog = kernelgen.gen_program(rnd, RANDOM_OPTS)
         yield prog, kernelgen.gen_history(rnd, RANDOM_OPTS, prog)
